@@ -124,6 +124,15 @@ CHECKS = {
          'bounded-exhaustive parsed node lists x option combinations against a reference partition',
          'DESIGN.md section 4 C18'),
 
+ 'C15': ('exploration',
+         'Real file system, fresh temporary tree per layout: 125 layouts (5 states - absent, regular file, symlink to outside file, symlink to inside file, directory - for each of in/x, in/x.tex, in/x.latex) x fixtures '
+         '(inside file in a subdirectory, sibling directory in2/ whose name extends the base name, outside directory, directory symlinks in both directions, outside symlink pointing inside; base also given with trailing slash, '
+         'through a symlink and with a dot-dot spelling) x every requested name of <= 2 (quick) / 3 (thorough) components over 13 components plus absolute spellings; read_input_file and latex_to_text of \\input / \\include. '
+         'Returned content is identified by unique markers: its owner must be properly inside the real path of the base, and names resolving to inside files must be read; without a configured directory nothing is read.',
+         'Trusted: os.path.realpath for the oracle; the documented completion order (bare name, .tex, .latex) for the liveness half.',
+         'bounded-exhaustive names x generated directory layouts, containment oracle via file markers',
+         'DESIGN.md section 4 C15'),
+
  'C11': ('model_checking',
          'Explicit-state exploration of the real LatexTokenReader: every state (remaining input, configuration) for all words of length '
          '<= 3 (quick) / 4 (thorough) over a 15-symbol alphabet x 6172 configurations (math mode and delimiter, 2^7 enable_* switches, extra group '
